@@ -1250,6 +1250,10 @@ class Sem:
             T = {"Some": ident(ok), "None": wrap(err, c0(A[1]))}
         elif nm in ("unwrap", "expect") and len(A) >= 1:
             T = {"Some": ident(lambda p: p), "None": K(PANIC)}
+        elif nm == "flatten" and len(A) == 1:
+            T = {"Some": ident(lambda p: p), "None": K(NONE)}
+        elif nm == "unwrap_or_default" and len(A) == 1 and site is not None and self._default_of(fr, site) is not None:
+            T = {"Some": ident(lambda p: p), "None": K(self._default_of(fr, site))}
         elif nm in ("is_some_and",) and len(A) == 2:
             T = {"Some": c1(A[1]), "None": K(FALSE)}
         elif nm in ("is_none_or",) and len(A) == 2:
@@ -1265,6 +1269,19 @@ class Sem:
         if T is None:
             return None
         return self._cases(fr, st, x, OPTION, T, site)
+
+    def _default_of(self, fr, site):
+        """Default::default() of the destination type of the call at `site`, for primitive integers / bool only."""
+        try:
+            t = fr.body.blocks[site[1]]["term"]
+            ty = fr.body.ty(t["dest"]["l"])
+        except Exception:
+            return None
+        if ty in ("usize", "u8", "u16", "u32", "u64", "isize", "i8", "i16", "i32", "i64"):
+            return mk("const", ty, 0)
+        if ty == "bool":
+            return FALSE
+        return None
 
     def _model_result(self, fr, st, nm, A, site):
         c1 = lambda f: (lambda s, p: self.call1(fr, s, f, [p], site))
